@@ -57,13 +57,17 @@ def env_for(kind, seg, qs, cookie):
         import io
         body = b'--b\r\nContent-Disposition: form-data; name="field-of-' + cookie.encode() + b'"\r\n\r\n\xff\r\n--b--\r\n'
         env.update({"REQUEST_METHOD": "POST", "CONTENT_TYPE": "multipart/form-data; boundary=b", "CONTENT_LENGTH": str(len(body)),
-                    "wsgi.input": io.BytesIO(body), "HTTP_ACCEPT": "application/json"})
+                    "wsgi.input": io.BytesIO(body)})
+        if cookie != "c1":       # T1 is a browser, the others JSON clients: the error documents differ in type and length
+            env["HTTP_ACCEPT"] = "application/json"
     return env
 
 
 def build_app(sched):
     """sched(point) is called at every user-callback boundary of the current simulated thread"""
-    app = ombott.Ombott()
+    from ombott.ombott import DefaultConfig
+    # errors_map with the default contents but objects of its own (the default map is shared process-wide, see C09/C10)
+    app = ombott.Ombott({"errors_map": {c: HTTPError(e.status_code, e.body) for c, e in DefaultConfig.errors_map.items()}})
     seen = sched.seen
 
     def me():
